@@ -41,7 +41,10 @@ def ref_complete(text):
 STRESS_FORMS = ["(display \"(\")", "(display \")\")", "(display \"((\")", "#\\(", "#\\)", "(list #\\( 1)", "(display \";\")", "(display \"a;b\") ", "'|a(b|", "(quote |)|)",
                 "(display \"\\\"(\")", "(list \"(\" #\\) '|(| 2)", "(display (list #\\( #\\)))", "(display \"two\nlines (\")", "\"#\\\\(\"", "(car '(#\\( b))",
                 "(display \"first\n\nsecond\n   \nthird\")", "(display \"ends with a backslash \\\\\")", "\"\\\\\"", "(list \"a\\\\\" \"(\")", "(display \"\n\n(\n\")",
-                "(display '|two\n\nlines|)", "(display \"tab\there \\\" quote (\")"]
+                "(display '|two\n\nlines|)", "(display \"tab\there \\\" quote (\")",
+                # tokens that span lines at the top level of a submission, and lines inside such tokens that look like comments or like nothing
+                "'|a\nb|", "(define |x\ny| 5)", "|x\ny|", "'|sym\n;x\nend|", "(display \"a\n; b\nc\")", "\"line1\n  ;; not a comment\nline3\"", "\"\n;\n\"", "'|\n|",
+                "(display \"x\n#| not a block comment\n|# y\")", "(list \"a\n)\" '|b\n(| 1)"]
 
 
 def split_form(rng, text):
